@@ -290,45 +290,9 @@ Proof. reflexivity. Qed.
 (* Europe/Paris around 2013 (seconds since 0001-01-01T00:00:00Z): +1 h, DST from 2013-03-31T01:00Z to 2013-10-27T01:00Z *)
 Definition paris13 : zone := mkzone 3600 [(63500288400, 7200); (63518432400, 3600)].
 
-(* 2013-03-31T12:00 Europe/Paris minus Duration(days=1): the operator gives 11:00 on the 30th, the two other routes 12:00 *)
-Lemma sub_duration_witness :
-  exists d, duration_new 1 0 0 0 0 0 0 0 0 = Ok d /\ wf2_zone paris13 = true /\
-    dt_sub_timedelta (Aware paris13 false) (wall_of 2013 3 31 12 0 0 0) false (OpDur d) = Ok (wall_of 2013 3 30 11 0 0 0, false) /\
-    dt_plus_neg (Aware paris13 false) (wall_of 2013 3 31 12 0 0 0) false d = Ok (wall_of 2013 3 30 12 0 0 0, true) /\
-    dt_sub_components (Aware paris13 false) (wall_of 2013 3 31 12 0 0 0) false d = Ok (wall_of 2013 3 30 12 0 0 0, true).
-Proof.
-  destruct (duration_new 1 0 0 0 0 0 0 0 0) as [d|e] eqn:E; [|vm_compute in E; discriminate].
-  exists d. split; [reflexivity|]. split; [reflexivity|].
-  vm_compute in E. injection E as <-. repeat split; vm_compute; reflexivity.
-Qed.
-
-Lemma sub_duration_eq_add_neg_refuted_l :
-  exists z W f d r1 r2, wf2_zone z = true /\ wall_in_range W = true /\
-    dt_sub_timedelta (Aware z false) W f (OpDur d) = Ok r1 /\
-    dt_plus_neg (Aware z false) W f d = Ok r2 /\ dt_sub_components (Aware z false) W f d = Ok r2 /\
-    fst r1 <> fst r2.
-Proof.
-  destruct sub_duration_witness as [d [_ [Hz [H1 [H2 H3]]]]].
-  exists paris13, (wall_of 2013 3 31 12 0 0 0), false, d, (wall_of 2013 3 30 11 0 0 0, false), (wall_of 2013 3 30 12 0 0 0, true).
-  repeat split; try assumption. cbn [fst]. vm_compute. discriminate.
-Qed.
-
-(* an Interval operand: years and months are counted twice.  2021-03-05T06:00Z - (that - 2020-01-01T00:00Z) = 2018-11-02T00:00Z,
-   while adding the negated Interval returns 2020-01-01 *)
-Lemma sub_interval_double_count_refuted_l :
-  let z := mkzone 0 [] in
-  let W := wall_of 2021 3 5 6 0 0 0 in
-  dt_sub_timedelta (Aware z false) W false (OpIv 1 2 0 4 6 0 0 0 (sf_of_Z 37087200)) = Ok (wall_of 2018 11 2 0 0 0 0, true) /\
-  dt_add_timedelta (Aware z false) W false (OpIv (-1) (-2) 0 (-4) (-6) 0 0 0 (sf_of_Z (-37087200))) = Ok (wall_of 2020 1 1 0 0 0 0, true) /\
-  wall_of 2021 3 5 6 0 0 0 - wall_of 2020 1 1 0 0 0 0 = 37087200 * 1000000.
-Proof. repeat split; vm_compute; reflexivity. Qed.
-
-(* --- the region where the three routes agree.
-   `float_exact d`: the float seconds that _subtract_timedelta hands to subtract() denote exactly the Duration's own components
-   (true for every whole-second Duration and for every Duration below 2^32 s; outside that the deviation is C09's finding). *)
+(* --- the three routes agree (after the repair of _subtract_timedelta the operator passes the same components as subtract()).
+   dur_rest_us: the weeks / remaining days / seconds / microseconds of a Duration as one amount of microseconds *)
 Definition dur_rest_us (d : dur) : Z := td_total_us (d_rdays d + 7 * d_weeks d) 0 0 (d_seconds d) (d_micro d).
-Definition float_exact (d : dur) : Prop :=
-  exists mins us, fsec_parts (fopp (d_total d)) = Ok (mins, us) /\ td_total_us 0 0 mins 0 us = - dur_rest_us d.
 
 Lemma py_add_duration_total W Y M Wk D h m s us Wk' D' h' m' s' us' : wall_in_range W = true ->
   td_total_us (D + 7 * Wk) h m s us = td_total_us (D' + 7 * Wk') h' m' s' us' ->
@@ -338,9 +302,6 @@ Proof. intros Hr E. rewrite !add_duration_cal by exact Hr. unfold cal_spec. cbn 
 Lemma dur_neg_sig d nd : dur_neg d = Ok nd ->
   d_sig nd = [- d_years d; - d_months d; - d_weeks d; - d_rdays d; 0; 0; - d_seconds d; - d_micro d + 0 * 1000].
 Proof. unfold dur_neg. intros H. apply duration_new_sig in H. tauto. Qed.
-
-Definition same_route (k : tzk) (d : dur) : Prop :=
-  k = Naive \/ d_years d <> 0 \/ d_months d <> 0 \/ (d_weeks d = 0 /\ d_rdays d = 0).
 
 Lemma any_cal_false y mo wk dd : any_cal y mo wk dd = false <-> (y = 0 /\ mo = 0 /\ wk = 0 /\ dd = 0).
 Proof. unfold any_cal, nz. lia. Qed.
@@ -378,88 +339,101 @@ Proof.
   apply dt_add_total; [exact Hr|]. pose proof (dur_hms_sum d Hs). unfold td_total_us. lia.
 Qed.
 
-Lemma sub_duration_eq_add_neg_partial_l k W f d nd : wall_in_range W = true ->
-  dur_neg d = Ok nd -> float_exact d -> same_route k d ->
-  dt_sub_timedelta k W f (OpDur d) = dt_add_timedelta k W f (OpDur nd).
+(* every Duration built by the constructor has |_seconds| < 86400 (the hypothesis of dur_hms_sum) *)
+Lemma split_total_sign total m micro it : split_total total = Ok (m, micro, it) -> m = -1 \/ m = 1.
 Proof.
-  intros Hr Hn [mins [us [Hf Ht]]] Hs.
-  unfold dt_sub_timedelta, dt_add_timedelta, dt_add_fsec. rewrite Hf. cbn [bind]. rewrite (dur_neg_sig _ _ Hn).
-  assert (E : td_total_us (0 + 7 * 0) 0 mins 0 us = td_total_us (- d_rdays d + 7 * - d_weeks d) 0 0 (- d_seconds d) (- d_micro d + 0 * 1000)).
-  { unfold dur_rest_us, td_total_us in *. lia. }
-  destruct k as [|z fx].
-  - unfold dt_add, add_naive. rewrite (py_add_duration_total W _ _ 0 0 0 mins 0 us _ _ _ _ _ _ Hr E). reflexivity.
-  - unfold dt_add.
-    destruct (any_cal (- d_years d) (- d_months d) 0 0) eqn:C1.
-    + assert (C2 : any_cal (- d_years d) (- d_months d) (- d_weeks d) (- d_rdays d) = true) by (unfold any_cal, nz in *; lia).
-      rewrite C2. unfold add_calendar. rewrite (py_add_duration_total W _ _ 0 0 0 mins 0 us _ _ _ _ _ _ Hr E). reflexivity.
-    + apply any_cal_false in C1. destruct Hs as [Hs|[Hs|[Hs|[Hw Hd]]]]; [discriminate|lia|lia|].
-      assert (C2 : any_cal (- d_years d) (- d_months d) (- d_weeks d) (- d_rdays d) = false) by (apply any_cal_false; lia).
-      rewrite C2. unfold add_fixed.
-      destruct (negb (wall_in_range (inst z W f))) eqn:Eu; [reflexivity|].
-      rewrite (py_add_duration_total (inst z W f) 0 0 0 0 0 mins 0 us 0 0 0 0 (- d_seconds d) (- d_micro d + 0 * 1000)); [reflexivity| |].
-      * destruct (wall_in_range (inst z W f)); [reflexivity|discriminate].
-      * rewrite Hw, Hd in E. exact E.
+  unfold split_total. destruct (flt total f_zero);
+  (destruct (py_float_mod _ _); cbn [bind]; [|discriminate]);
+  (destruct (py_round_half_even _); cbn [bind]; [|discriminate]);
+  (destruct (py_int_trunc _); cbn [bind]; [|discriminate]); intros H; injection H as <- _ _; auto.
 Qed.
 
-(* the remaining region (no years/months, at least one whole day, aware): the operator goes through UTC, the other routes over the
-   wall clock; they land on the same wall time (hence the same instant) when the target is an ordinary wall time with the offset
-   of the start.  The fold flag differs (0 from the UTC route, the default 1 from create). *)
-Lemma sub_duration_same_offset_partial_l z W f d nd mins us :
-  wf_zone z = true -> dur_neg d = Ok nd ->
-  d_years d = 0 -> d_months d = 0 -> (d_weeks d <> 0 \/ d_rdays d <> 0) ->
-  fsec_parts (fopp (d_total d)) = Ok (mins, us) -> td_total_us 0 0 mins 0 us = - dur_rest_us d ->
-  let T := - dur_rest_us d in
-  let o := off_local z (sec W) f in
-  -999999999 <= T / us_per_day <= 999999999 ->
-  wall_in_range W = true -> wall_in_range (W - MEG * o) = true -> wall_in_range (W - MEG * o + T) = true -> wall_in_range (W + T) = true ->
-  wall_unique z (sec (W + T)) -> off_local z (sec (W + T)) true = o ->
-  dt_sub_timedelta (Aware z false) W f (OpDur d) = Ok (W + T, fold_utc z (sec (W + T) - o)) /\
-  dt_add_timedelta (Aware z false) W f (OpDur nd) = Ok (W + T, true).
+Lemma duration_new_seconds_bound days seconds us ms minutes hours weeks years months d :
+  duration_new days seconds us ms minutes hours weeks years months = Ok d -> Z.abs (d_seconds d) < 86400.
 Proof.
-  intros Hwf Hn Hy Hmo Hcal Hf Ht T o Hlim HrW HrU HrUT HrWT Hu Ho.
-  destruct (create_unique z (W + T) true Hwf Hu false) as [Hc [_ Hoff]]. rewrite Ho in Hoff.
-  split.
-  - unfold dt_sub_timedelta, dt_add_fsec. rewrite Hf. cbn [bind]. rewrite Hy, Hmo.
-    unfold dt_add. replace (any_cal (- 0) (- 0) 0 0) with false by reflexivity.
-    unfold add_fixed. replace (inst z W f) with (W - MEG * o) by reflexivity. rewrite HrU. cbn [negb].
-    assert (Hl' : -999999999 <= td_total_us 0 0 mins 0 us / us_per_day <= 999999999) by (rewrite Ht; exact Hlim).
-    rewrite (add_duration_fixed (W - MEG * o) 0 mins 0 us HrU Hl'). rewrite Ht. fold T. rewrite HrUT. cbn [n_wall].
-    unfold render.
-    assert (Es : (W - MEG * o + T) / MEG = sec (W + T) - o) by (unfold sec, MEG; lia).
-    rewrite Es, Hoff. replace (W - MEG * o + T + MEG * o) with (W + T) by lia. rewrite HrWT. reflexivity.
-  - unfold dt_add_timedelta. rewrite (dur_neg_sig _ _ Hn). rewrite Hy, Hmo.
-    rewrite dt_add_calendar; [|exact HrW|unfold any_cal, nz; lia].
-    unfold cal_target. replace (- 0) with 0 by reflexivity. rewrite (ym_shift_zero W HrW).
-    replace (td_total_us (- d_rdays d + 7 * - d_weeks d) 0 0 (- d_seconds d) (- d_micro d + 0 * 1000)) with T
-      by (unfold T, dur_rest_us, td_total_us; lia).
-    unfold wall_shift. replace ((T / us_per_day <? -999999999) || (999999999 <? T / us_per_day)) with false by lia.
-    rewrite HrWT. unfold create. exact Hc.
+  unfold duration_new. destruct (td_of_int_args _ _ _ _ _ _ _) as [N|e]; cbn [bind]; [|discriminate].
+  unfold float_pipeline. destruct (py_float_of_int _) as [fy|e]; cbn [bind]; [|discriminate].
+  destruct (split_total _) as [[[m micro] it]|e] eqn:Es; cbn [bind]; [|discriminate].
+  intros H. injection H as <-. cbn [d_seconds]. apply split_total_sign in Es.
+  change C_SECONDS_PER_DAY with 86400. destruct Es; subst m; lia.
 Qed.
 
-(* the hypotheses of the three region theorems are satisfiable *)
-Example float_exact_example : exists d, duration_new 3 7261 500000 0 0 0 2 0 0 = Ok d /\ float_exact d /\ dur_rest_us d = (17 * 86400 + 7261) * 1000000 + 500000.
+(* dt - d = dt.subtract(components of d) = dt + (-d), for EVERY Duration, zone kind and wall value.
+   `-d` is a new Duration (dur_neg; its construction can itself raise OverflowError when the negated value is not a timedelta):
+   once it exists, adding it is exactly the subtraction. *)
+Lemma sub_duration_eq_add_neg_l k W f d : wall_in_range W = true -> Z.abs (d_seconds d) < 86400 ->
+  dt_sub_timedelta k W f (OpDur d) = dt_sub_components k W f d /\
+  dt_plus_neg k W f d = bind (dur_neg d) (fun _ => dt_sub_timedelta k W f (OpDur d)) /\
+  (forall nd, dur_neg d = Ok nd -> dt_sub_timedelta k W f (OpDur d) = dt_add_timedelta k W f (OpDur nd)).
+Proof.
+  intros Hr Hs. split; [reflexivity|].
+  pose proof (sub_components_eq_plus_neg_l k W f d Hr Hs) as H. split; [exact H|].
+  intros nd Hn. unfold dt_plus_neg in H. rewrite Hn in H. cbn [bind] in H. symmetry. exact H.
+Qed.
+
+Lemma sub_duration_eq_add_neg_new k W f days seconds us ms minutes hours weeks years months d :
+  wall_in_range W = true -> duration_new days seconds us ms minutes hours weeks years months = Ok d ->
+  dt_sub_timedelta k W f (OpDur d) = dt_sub_components k W f d /\
+  dt_plus_neg k W f d = bind (dur_neg d) (fun _ => dt_sub_timedelta k W f (OpDur d)) /\
+  (forall nd, dur_neg d = Ok nd -> dt_sub_timedelta k W f (OpDur d) = dt_add_timedelta k W f (OpDur nd)).
+Proof. intros Hr Hd. apply sub_duration_eq_add_neg_l; [exact Hr|]. exact (duration_new_seconds_bound _ _ _ _ _ _ _ _ _ _ Hd). Qed.
+
+(* an Interval operand: the operator subtracts the Interval's components once, which is adding the negated components
+   (the components of the reversed Interval -iv) *)
+Lemma sub_interval_eq_add_neg_l k W f y mo wk rd h mi rs us total :
+  dt_sub_timedelta k W f (OpIv y mo wk rd h mi rs us total) = dt_subtract k W f y mo wk rd h mi rs us /\
+  dt_sub_timedelta k W f (OpIv y mo wk rd h mi rs us total) =
+  dt_add_timedelta k W f (OpIv (- y) (- mo) (- wk) (- rd) (- h) (- mi) (- rs) (- us) (fopp total)).
+Proof. split; reflexivity. Qed.
+
+(* consequently `dt - d` moves years, months, weeks and days on the WALL clock: with any calendar component it is the C02
+   normalisation of the calendar target of the negated amounts (it no longer goes through UTC) *)
+Lemma minus_duration_wall_clock_l z fx W f d : wall_in_range W = true -> Z.abs (d_seconds d) < 86400 ->
+  any_cal (d_years d) (d_months d) (d_weeks d) (d_rdays d) = true ->
+  dt_sub_timedelta (Aware z fx) W f (OpDur d) =
+  match cal_target true W (- d_years d) (- d_months d) (- dur_rest_us d) with
+  | Raise e => Raise e
+  | Ok W' => create z fx W' true false
+  end.
+Proof.
+  intros Hr Hs Hc. unfold dt_sub_timedelta, dt_sub_components, dt_subtract.
+  rewrite dt_add_calendar; [|exact Hr|unfold any_cal, nz in *; lia].
+  pose proof (dur_hms_sum d Hs) as E.
+  replace (td_total_us (- d_rdays d + 7 * - d_weeks d) (- dur_hours d) (- dur_minutes d) (- dur_remaining_seconds d) (- d_micro d))
+    with (- dur_rest_us d) by (unfold dur_rest_us, td_total_us; lia).
+  reflexivity.
+Qed.
+
+(* the inputs that used to fail (findings sub-duration-elapsed and sub-interval-double-count, both repaired):
+   2013-03-31T12:00 Europe/Paris minus Duration(days=1) is 12:00 on the 30th by all three routes (it was 11:00 by the operator);
+   2021-03-05T06:00Z minus (that - 2020-01-01T00:00Z) is 2020-01-01T00:00Z (it was 2018-11-02) *)
+Lemma sub_duration_former_witness :
+  exists d, duration_new 1 0 0 0 0 0 0 0 0 = Ok d /\ wf2_zone paris13 = true /\
+    wall_of 2013 3 31 12 0 0 0 - MEG * off_local paris13 (sec (wall_of 2013 3 31 12 0 0 0)) false - dur_rest_us d
+      <> wall_of 2013 3 30 12 0 0 0 - MEG * off_local paris13 (sec (wall_of 2013 3 30 12 0 0 0)) true /\
+    dt_sub_timedelta (Aware paris13 false) (wall_of 2013 3 31 12 0 0 0) false (OpDur d) = Ok (wall_of 2013 3 30 12 0 0 0, true) /\
+    dt_plus_neg (Aware paris13 false) (wall_of 2013 3 31 12 0 0 0) false d = Ok (wall_of 2013 3 30 12 0 0 0, true) /\
+    dt_sub_components (Aware paris13 false) (wall_of 2013 3 31 12 0 0 0) false d = Ok (wall_of 2013 3 30 12 0 0 0, true).
+Proof.
+  destruct (duration_new 1 0 0 0 0 0 0 0 0) as [d|e] eqn:E; [|vm_compute in E; discriminate].
+  exists d. split; [reflexivity|]. split; [reflexivity|].
+  vm_compute in E. injection E as <-. split; [vm_compute; discriminate|]. repeat split; vm_compute; reflexivity.
+Qed.
+
+Lemma sub_interval_former_witness :
+  let z := mkzone 0 [] in
+  let W := wall_of 2021 3 5 6 0 0 0 in
+  dt_sub_timedelta (Aware z false) W false (OpIv 1 2 0 4 6 0 0 0 (sf_of_Z 37087200)) = Ok (wall_of 2020 1 1 0 0 0 0, true) /\
+  dt_add_timedelta (Aware z false) W false (OpIv (-1) (-2) 0 (-4) (-6) 0 0 0 (sf_of_Z (-37087200))) = Ok (wall_of 2020 1 1 0 0 0 0, true) /\
+  wall_of 2021 3 5 6 0 0 0 - wall_of 2020 1 1 0 0 0 0 = 37087200 * 1000000.
+Proof. repeat split; vm_compute; reflexivity. Qed.
+
+(* the hypotheses of minus_duration_wall_clock_l are satisfiable: Duration(weeks=2, days=3, seconds=7261, microseconds=500000) *)
+Example wall_clock_hyps : exists d, duration_new 3 7261 500000 0 0 0 2 0 0 = Ok d /\ Z.abs (d_seconds d) < 86400 /\
+  any_cal (d_years d) (d_months d) (d_weeks d) (d_rdays d) = true /\ dur_rest_us d = (17 * 86400 + 7261) * 1000000 + 500000.
 Proof.
   destruct (duration_new 3 7261 500000 0 0 0 2 0 0) as [d|e] eqn:E; [|vm_compute in E; discriminate].
-  exists d. split; [reflexivity|]. vm_compute in E. injection E as <-.
-  split; [|vm_compute; reflexivity]. unfold float_exact. eexists. eexists. split; vm_compute; reflexivity.
-Qed.
-
-(* Interval operand without years/months (so nothing is counted twice): the operator agrees with adding the negated Interval
-   when both take the same route (naive, or less than a day) and the float total denotes the components exactly *)
-Lemma sub_interval_partial_l k W f wk rd h mi rs us total mins usx : wall_in_range W = true ->
-  fsec_parts (fopp total) = Ok (mins, usx) -> td_total_us 0 0 mins 0 usx = - td_total_us (rd + 7 * wk) h mi rs us ->
-  (k = Naive \/ (wk = 0 /\ rd = 0)) ->
-  dt_sub_timedelta k W f (OpIv 0 0 wk rd h mi rs us total) =
-  dt_add_timedelta k W f (OpIv 0 0 (- wk) (- rd) (- h) (- mi) (- rs) (- us) (fopp total)).
-Proof.
-  intros Hr Hf Ht Hs. unfold dt_sub_timedelta, dt_add_timedelta, dt_add_fsec. rewrite Hf. cbn [bind].
-  replace (- 0) with 0 by reflexivity.
-  assert (E : td_total_us (0 + 7 * 0) 0 mins 0 usx = td_total_us (- rd + 7 * - wk) (- h) (- mi) (- rs) (- us))
-    by (unfold td_total_us in *; lia).
-  destruct k as [|z fx].
-  - unfold dt_add, add_naive. rewrite (py_add_duration_total W _ _ 0 0 0 mins 0 usx _ _ _ _ _ _ Hr E). reflexivity.
-  - destruct Hs as [Hs|[Hw Hd]]; [discriminate|]. subst wk rd. apply dt_add_total; [exact Hr|].
-    unfold td_total_us in *. lia.
+  exists d. split; [reflexivity|]. vm_compute in E. injection E as <-. repeat split; vm_compute; reflexivity.
 Qed.
 
 (* ------------------------------------------------------------------ concrete instances (non-vacuity, documentation) *)
@@ -482,19 +456,3 @@ Example dst_examples :
   dt_add (Aware paris13 false) (wall_of 2013 9 27 2 30 0 0) false 0 1 0 0 0 0 0 0 = Ok (wall_of 2013 10 27 2 30 0 0, true) /\
   off_local paris13 (sec (wall_of 2013 10 27 2 30 0 0)) true = 3600.
 Proof. repeat split; vm_compute; reflexivity. Qed.
-
-Example same_offset_hyps :
-  let z := paris13 in let W := wall_of 2013 6 15 12 0 0 0 in
-  exists d nd mins us,
-    duration_new 1 0 0 0 0 0 0 0 0 = Ok d /\ dur_neg d = Ok nd /\ d_years d = 0 /\ d_months d = 0 /\ (d_weeks d <> 0 \/ d_rdays d <> 0) /\
-    fsec_parts (fopp (d_total d)) = Ok (mins, us) /\ td_total_us 0 0 mins 0 us = - dur_rest_us d /\
-    wall_in_range (W - MEG * off_local z (sec W) false + - dur_rest_us d) = true /\
-    wall_unique z (sec (W + - dur_rest_us d)) /\ off_local z (sec (W + - dur_rest_us d)) true = off_local z (sec W) false.
-Proof.
-  cbv zeta.
-  destruct (duration_new 1 0 0 0 0 0 0 0 0) as [d|e] eqn:E; [|vm_compute in E; discriminate].
-  destruct (dur_neg d) as [nd|e] eqn:En; [|vm_compute in E; injection E as <-; vm_compute in En; discriminate].
-  exists d, nd. vm_compute in E. injection E as <-. eexists. eexists.
-  split; [reflexivity|]. split; [exact En|]. split; [reflexivity|]. split; [reflexivity|]. split; [right; vm_compute; discriminate|].
-  split; [vm_compute; reflexivity|]. repeat split; vm_compute; reflexivity.
-Qed.
